@@ -184,34 +184,53 @@ structure Triple (α : Type) where
   krw : α
   krn : α
 
-/-- the part of `update` before the final `if (updateParams) updateDynamicParams_()`: the new raw
-members and the flag. -/
-def step (c : Cfg α) (l : Lits α) (f : Laws α) (p : Static α) (st : State α) (s : Triple α) : State α × Bool :=
-  let c1 := decide (c.pcModel = 0) && decide (s.pc < st.pcMdc)
-  let st1 : State α :=
-    if c1 then
-      { st with initialImb := st.initialImb ||
-                  (decide (st.pcMdc ≤ l.two) && decide (l.two ≤ st.pcMdc) && decide (s.pc + l.micro < p.Swcrd) && p.ow),
-                pcMdc := s.pc }
-    else st
-  let c2 := st1.initialImb && decide (st1.pcMic < s.pc)
-  let st2 : State α := if c2 then { st1 with pcMic := s.pc } else st1
-  let c3 := decide (s.krn < st2.krnMdc)
-  let st3 : State α :=
-    if c3 then
-      { st2 with krnMdc := s.krn, KrndHy := f.krnD s.krn,
-                 KrwdHy := if c.krModel = 4 then f.krwD s.krn else st2.KrwdHy }
-    else st2
-  let st4 : State α := if st3.krwMdc < s.krw then { st3 with krwMdc := s.krw } else st3
-  (st4, c1 || c2 || c3)
+/-- `pcSwMdc_ == 2.0 && pcSw+1.0e-6 < Swcrd_ && oilWaterSystem_` (`==` as `≤ ∧ ≥`, which is also IEEE's
+`==` on NaN) -/
+def flips (l : Lits α) (p : Static α) (st : State α) (s : Triple α) : Prop :=
+  (st.pcMdc ≤ l.two ∧ l.two ≤ st.pcMdc) ∧ s.pc + l.micro < p.Swcrd ∧ p.ow = true
 
-/-- `update(pcSw, krwSw, krnSw)`. -/
+instance (l : Lits α) (p : Static α) (st : State α) (s : Triple α) : Decidable (flips l p st s) := by
+  unfold flips; exact inferInstance
+
+/-- first block of `update`: `if (config().pcHysteresisModel() == 0 && pcSw < pcSwMdc_) { … }` -/
+def stepPc (c : Cfg α) (l : Lits α) (p : Static α) (st : State α) (s : Triple α) : State α :=
+  if c.pcModel = 0 ∧ s.pc < st.pcMdc then
+    { st with initialImb := if st.initialImb = true ∨ flips l p st s then true else false, pcMdc := s.pc }
+  else st
+
+/-- second block: `if (initialImb_ && pcSw > pcSwMic_) pcSwMic_ = pcSw;` -/
+def stepMic (st : State α) (s : Triple α) : State α :=
+  if st.initialImb = true ∧ st.pcMic < s.pc then { st with pcMic := s.pc } else st
+
+/-- third block: `if (krnSw < krnSwMdc_) { krnSwMdc_ = krnSw; KrndHy_ = …; if (model == 4) KrwdHy_ = …; }` -/
+def stepKrn (c : Cfg α) (f : Laws α) (st : State α) (s : Triple α) : State α :=
+  if s.krn < st.krnMdc then
+    { st with krnMdc := s.krn, KrndHy := f.krnD s.krn,
+              KrwdHy := if c.krModel = 4 then f.krwD s.krn else st.KrwdHy }
+  else st
+
+/-- fourth block: `if (krwSw > krwSwMdc_) krwSwMdc_ = krwSw;` (output only, does not set the flag) -/
+def stepKrw (st : State α) (s : Triple α) : State α :=
+  if st.krwMdc < s.krw then { st with krwMdc := s.krw } else st
+
+/-- the raw members after the four blocks -/
+def stepAll (c : Cfg α) (l : Lits α) (f : Laws α) (p : Static α) (st : State α) (s : Triple α) : State α :=
+  stepKrw (stepKrn c f (stepMic (stepPc c l p st s) s) s) s
+
+/-- the `updateParams` flag -/
+def flag (c : Cfg α) (l : Lits α) (p : Static α) (st : State α) (s : Triple α) : Prop :=
+  (c.pcModel = 0 ∧ s.pc < st.pcMdc) ∨ ((stepPc c l p st s).initialImb = true ∧ st.pcMic < s.pc) ∨ s.krn < st.krnMdc
+
+instance (c : Cfg α) (l : Lits α) (p : Static α) (st : State α) (s : Triple α) : Decidable (flag c l p st s) := by
+  unfold flag; exact inferInstance
+
+/-- `update(pcSw, krwSw, krnSw)`: the four blocks, then `if (updateParams) updateDynamicParams_()`. -/
 def update (c : Cfg α) (l : Lits α) (f : Laws α) (p : Static α) (st : State α) (s : Triple α) : State α :=
-  if (step c l f p st s).2 then dyn c f p (step c l f p st s).1 else (step c l f p st s).1
+  if flag c l p st s then dyn c f p (stepAll c l f p st s) else stepAll c l f p st s
 
 /-- the return value of `update`. -/
-def changed (c : Cfg α) (l : Lits α) (f : Laws α) (p : Static α) (st : State α) (s : Triple α) : Bool :=
-  (step c l f p st s).2
+def changed (c : Cfg α) (l : Lits α) (p : Static α) (st : State α) (s : Triple α) : Bool :=
+  decide (flag c l p st s)
 
 def run (c : Cfg α) (l : Lits α) (f : Laws α) (p : Static α) (st : State α) (h : List (Triple α)) : State α :=
   h.foldl (update c l f p) st
